@@ -12,8 +12,12 @@ work="$(mktemp -d /tmp/verif-sens.XXXXXX)"
 trap 'rm -rf "$work"' EXIT
 export CARGO_TARGET_DIR="$work/target"
 export VERIF_DIR="$work/verif"
-mkdir -p "$VERIF_DIR" "$work/repo"
+mkdir -p "$VERIF_DIR" "$work/repo" "$work/harness"
 cp "$here/known_findings.json" "$VERIF_DIR/"
+# a private snapshot of the harness sources, so that edits under /verif/sim during a long run
+# cannot disturb it
+rsync -a --exclude target "$here/sim" "$work/harness/"
+cp "$here/check" "$work/harness/check"
 results="$here/mutants/results.json"
 tmpres="$work/results.jsonl"
 : > "$tmpres"
@@ -32,7 +36,7 @@ run_one() { # name property patchfile
   fi
   local verdict="" detail=""
   for p in $props; do
-    out="$(VERIF_REPO="$work/repo" "$here/check" "$p" quick 2>&1)"; rc=$?
+    out="$(VERIF_REPO="$work/repo" "$work/harness/check" "$p" quick 2>&1)"; rc=$?
     line="$(echo "$out" | grep -E '^violation class' | head -1)"
     if [ "$prop" = "EQ" ]; then
       if [ $rc -ne 0 ]; then verdict="FALSE-ALARM"; detail="$p rc=$rc $line"; break; else verdict="quiet"; fi
